@@ -39,7 +39,7 @@ TEXT = {
             "single faults only; injection points are those of the reference execution (a run that does not reach its point is a harness error)"),
     'C13': ('fault_enumeration', '7 C13', "Kill-point enumeration in the simulated process backends: the worker is killed (frozen for ever, no finally, no with-exit) at every yield point of its save phase - storage calls, write/flush/close boundaries, line boundaries of the save path, a split inside writes larger than a page - each with user-space buffers lost and flushed first; first save and overwrite; a recursive delete inside the save is file-by-file; afterwards a new Lab must either not report the task or load a complete old/new value. Exhaustive over the kill points of the reference executions; plus a real-OS probe that SIGKILLs a real forked worker at the k-th file operation of its save.",
             "process-kill semantics only (OS page cache survives); interleavings inside one storage operation (e.g. a half-finished rmtree) are not modelled"),
-    'C14': ('fault_enumeration', '7 C14', "Interrupt instants are the check points at which CPython 3.12 can raise KeyboardInterrupt in the calling thread's Python code - entry of a labtech function, loop back-edge, return from a C call made by labtech code, call of a non-labtech Python function - not arbitrary line starts (a `try:` line, for one, is a NOP that no handler covers and at which nothing can be raised). Serial backend: one run per check point executed inside labtech during run_tasks (exhaustive for two fixed workloads, ~5 700 instants) plus sampled interrupt pairs; process backends (simulated fork/spawn): every main-thread check point of fixed workloads and schedules (single interrupt, enumerated) plus a seeded search over DAGs (some tasks fail), schedules and one or two interrupt instants, delivered at main-thread check points, inside a manager-proxy call of the main thread (request sent, reply not yet read: the reply stays unread on that thread's connection to that manager and later calls read the reply before theirs; enumerated for the fixed workloads with and without the task monitor) or while the main thread is blocked in the helper thread's join, to the whole foreground group according to each process's recorded SIGINT disposition and signal mask (a blocked SIGINT stays pending, an ignored one is discarded; children inherit the mask under both start methods; the first spawn of an interpreter starts multiprocessing's resource tracker, which leaves SIGINT unblocked in the caller). Oracle: KeyboardInterrupt and nothing else, no process/task start after the interrupt, executing workers finish and their results are cached (single) or are dead without a further worker step (double; a task process that handles SIGTERM is not ended by terminate()), every entry reported cached afterwards loads a correct value; plus real killpg(SIGINT) on real fork and spawn runs: single and double at a resting point (all workers inside run()), and single at the instant the first task process exists (workers still starting up).",
+    'C14': ('fault_enumeration', '7 C14', "Interrupt instants are the check points at which CPython 3.12 can raise KeyboardInterrupt in the calling thread's Python code - entry of a labtech function, loop back-edge, return from a C call made by labtech code, call of a non-labtech Python function - not arbitrary line starts (a `try:` line, for one, is a NOP that no handler covers and at which nothing can be raised). Serial backend: one run per check point executed inside labtech during run_tasks (exhaustive for two fixed workloads, ~5 700 instants) plus sampled interrupt pairs; process backends (simulated fork/spawn): every main-thread check point of fixed workloads and schedules (single interrupt, enumerated) plus a seeded search over DAGs (some tasks fail), schedules and one or two interrupt instants, delivered at main-thread check points, inside a manager-proxy call of the main thread (request sent, reply not yet read: the reply stays unread on that thread's connection to that manager and later calls read the reply before theirs; enumerated for the fixed workloads with and without the task monitor) or while the main thread is blocked in the helper thread's join, to the whole foreground group according to each process's recorded SIGINT disposition and signal mask (a blocked SIGINT stays pending, an ignored one is discarded; children inherit the mask under both start methods; the first spawn of an interpreter starts multiprocessing's resource tracker, which leaves SIGINT unblocked in the caller). Oracle: KeyboardInterrupt and nothing else, no process/task start after the interrupt, executing workers finish and their results are cached (single) or are dead without a further worker step (double; a task process that handles SIGTERM is not ended by terminate()), every entry reported cached afterwards loads a correct value; plus real killpg(SIGINT) on real fork and spawn runs: single and double at a resting point (all workers inside run(); after the single one, one of the tasks fails while the run is drained - the Lab has continue_on_failure=False), and single at the instant the first task process exists (workers still starting up).",
             "interrupt instants are the signal check points of CPython 3.12 as seen from labtech's own code, blocked seam operations and the send/receive gap of manager proxy calls; check points inside the standard library are attributed to the labtech call that entered it"),
     'C16': ('exploration', '7 C16', "At the process-creation seam every worker of the fork/spawn backend must be requested from the fork/spawn context; context seen inside run() equals filter_context(lab.context); storage is byte-identical between runs differing only in context; (also for results that contain task objects); workloads contain failing tasks and the caller's process name after the call must be what it was before (in-process backends); plus a real-OS probe (pid, ppid, module global mutated by the parent) on the three real backends, alone and after another process backend was used in the same interpreter.",
             "the real-OS half has no schedule dependence and is a real-execution probe, declared as such"),
